@@ -74,6 +74,7 @@ fn serve(
             let r = match cmd["act"].as_str() {
                 Some("Drain") => inc.drain_replay().await,
                 Some("Settle") => inc.settle().await,
+                Some("PollPublish") => inc.poll_publish(cmd["arg"]["k"].as_u64().unwrap_or(1)).await,
                 Some("FreeRun") => {
                     let mut emit = |v: Value| reply(Ok(json!({"progress": v})));
                     match inc.free_run(&cmd["arg"], &mut emit).await {
